@@ -31,6 +31,9 @@ type EventLog struct {
 	lines []string
 }
 
+// DST_TRACE_STDERR: every line also goes to stderr (looking at a run that hangs)
+var traceStderr = os.Getenv("DST_TRACE_STDERR") != ""
+
 func NewEventLog() *EventLog {
 	l := &EventLog{Keep: 60}
 	// DST_KEEP: longer tail for looking at a replay (affects what is kept, not what runs)
@@ -49,6 +52,9 @@ func (l *EventLog) Add(format string, a ...interface{}) {
 	copy(l.h[:], hh.Sum(nil))
 	if l.All {
 		l.lines = append(l.lines, s)
+	}
+	if traceStderr {
+		fmt.Fprintln(os.Stderr, "T", s)
 	}
 	l.tail = append(l.tail, s)
 	if len(l.tail) > l.Keep {
